@@ -5,7 +5,7 @@ CONSTANTS
     Ns = {0, 2, 3}
     Opts = {0, 2, 4}
     Sizes = {2}
-    MaxSends = 5
+    MaxSends = 4
     MaxDay = 1
     MaxRestarts = 1
     MaxCrash = 0
